@@ -285,3 +285,56 @@ def a5_pair_closure_reps() -> tuple:
                 v[s] = max(v[a] + v[b] for a, b in proper_splits(s))
         games.append(tuple(v))
     return tuple(games)
+
+
+def pair_closure_game(n: int, edges) -> tuple:
+    """Singletons 0, the listed pairs worth 1 (others 0), larger coalitions = superadditive closure (best two-part split)."""
+    es = {(1 << a) | (1 << b) for a, b in edges}
+    v = [0] * (1 << n)
+    for s in ids_by_size(n):
+        if popcount(s) == 2:
+            v[s] = 1 if s in es else 0
+        elif popcount(s) > 2:
+            v[s] = max(v[a] + v[b] for a, b in proper_splits(s))
+    return tuple(v)
+
+
+def convex_game(n: int) -> tuple:
+    return tuple(popcount(s) * (popcount(s) - 1) // 2 for s in range(1 << n))
+
+
+SHIFT_LONG = (1, -1, 2, 0, 3, -2, 1, 0, 2, -1)
+
+
+@lru_cache(maxsize=None)
+def larger_n_samples(n: int) -> tuple:
+    """A handful of structurally different exact superadditive games on n >= 6 players (matching, path, star, two cliques,
+    complete graph closures; shifted by an additive game or added to a convex game)."""
+    half = n // 2
+    graphs = {
+        "matching": [(2 * i, 2 * i + 1) for i in range(half)],
+        "path": [(i, i + 1) for i in range(n - 1)],
+        "star": [(0, i) for i in range(1, n)],
+        "two-cliques": [(a, b) for a in range(half) for b in range(a + 1, half)] + [(a, b) for a in range(half, n) for b in range(a + 1, n)],
+        "complete": [(a, b) for a in range(n) for b in range(a + 1, n)],
+    }
+    out = []
+    cv = convex_game(n)
+    for i, (name, edges) in enumerate(graphs.items()):
+        g = pair_closure_game(n, edges)
+        out.append((f"{name}-shift", shifted(g, SHIFT_LONG[:n])))
+        if i % 2 == 0:
+            out.append((f"{name}+convex", tuple(a + b for a, b in zip(g, cv))))
+    return tuple(out)
+
+
+def distance2_knowledge(n: int, limit: int | None = None):
+    """All knowledge sets at Hamming distance exactly 2 from the minimal information (pairs of revealed coalitions)."""
+    ex = explorable_ids(n)
+    base = kmask(minimal_ids(n))
+    k = 0
+    for a, b in itertools.combinations(ex, 2):
+        yield base | 1 << a | 1 << b
+        k += 1
+        if limit is not None and k >= limit:
+            return
